@@ -20,7 +20,13 @@ MANIFEST_ENTRY = {
 
 
 def tasks(tier, seed):
-    return [*UPDATE_ALL, func("bt.backtest.Backtest.run"), dict(kind="custom", module="props.misc_tasks", fn="c09_constants"), dict(kind="custom", module="props.misc_tasks", fn="backtest_init_task"), dict(kind="custom", module="props.c04_tasks", fn="setup_clauses")]
+    return [*UPDATE_ALL, func("bt.backtest.Backtest.run"), dict(kind="custom", module="props.misc_tasks", fn="c09_constants"), dict(kind="custom", module="props.misc_tasks", fn="backtest_init_task"), dict(kind="custom", module="props.c04_tasks", fn="setup_clauses"),
+            dict(kind="custom", module="props.bounded", fn="run_script", script="c09_substrategy", seed=seed, n=12 if tier == "quick" else 400, props=["C09"])]
+
+
+def post(results, tier, seed):
+    b = [r["bounded"] for r in results if r.get("bounded")]
+    return None, dict(bounded_stand_ins=b, bounded_note="pairs of real backtests (the sub-strategy alone / inside a parent); never counted in obligations/discharged")
 
 
 def replay(o):
